@@ -1,11 +1,1154 @@
-//! C04 -- not built yet (stub so the crate layout is stable).
-use crate::engine::report::{Ctx, Report};
-use serde_json::Value;
+//! C04 -- every well-formed terminal report or key sequence decodes to what it encodes.
+//!
+//! The independent printers of `model::keytable` produce, for an *intended* event, the bytes a
+//! terminal sends; the real `TTYEventDecoder` (driven through `Decoder::decode_into` over
+//! `std::io::Cursor`s, one cursor per read) must return exactly the intended events.
+//!
+//! Part 1 - per-family parameter lattices, each enumerated in full (see `run`).
+//! Part 2 - sequences: all ordered pairs (quick) / triples (thorough) of representative
+//!          self-delimiting tokens under every partition into reads with at most two cuts.
+//!
+//! For every case three things are checked:
+//!   * the decoded event list equals the intended one (`wrong-event` / `raw` / `count`);
+//!   * the events are there when the last byte of the sequence has been read (`late`), except
+//!     for keys whose bytes are a proper prefix of other sequences (ESC, ESC [, ESC O, ESC P,
+//!     ESC ], ESC _), which must appear once a following ESC rules the longer reading out;
+//!   * afterwards the decoder holds nothing but that trailing ESC (`residual`) - a complete
+//!     sequence never leaves bytes behind that would be merged with its neighbour.
+use crate::engine::catch;
+use crate::engine::report::{Ctx, Report, Tier, Violations};
+use crate::engine::util::{esc, hash64, hex, unhex};
+use crate::model::keytable::*;
+use rayon::prelude::*;
+use serde_json::{json, Value};
+use std::collections::BTreeMap;
+use std::io::Cursor;
+use std::sync::Mutex;
+use surf_n_term::decoder::{Decoder, TTYEventDecoder};
+use surf_n_term::{
+    DecMode, DecModeStatus, Face, FaceAttrs, FaceModify, Key, KeyMod, KeyName, TerminalColor, TerminalCommand,
+    TerminalEvent, UnderlineStyle, RGBA,
+};
 
-pub fn run(_ctx: &Ctx) -> Result<Report, String> {
-    Err("C04: check not built yet".into())
+// ---------------------------------------------------------------------------------------------
+// observation: library event -> model event (field extraction only)
+// ---------------------------------------------------------------------------------------------
+
+fn kname(n: KeyName) -> KName {
+    match n {
+        KeyName::Backspace => KName::Backspace,
+        KeyName::Char(c) => KName::Char(c),
+        KeyName::Delete => KName::Delete,
+        KeyName::Insert => KName::Insert,
+        KeyName::Down => KName::Down,
+        KeyName::End => KName::End,
+        KeyName::Enter => KName::Enter,
+        KeyName::Esc => KName::Esc,
+        KeyName::F(i) => KName::F(i),
+        KeyName::Home => KName::Home,
+        KeyName::Left => KName::Left,
+        KeyName::MouseLeft => KName::MouseLeft,
+        KeyName::MouseMiddle => KName::MouseMiddle,
+        KeyName::MouseMove => KName::MouseMove,
+        KeyName::MouseRight => KName::MouseRight,
+        KeyName::MouseWheelDown => KName::MouseWheelDown,
+        KeyName::MouseWheelUp => KName::MouseWheelUp,
+        KeyName::PageDown => KName::PageDown,
+        KeyName::PageUp => KName::PageUp,
+        KeyName::Right => KName::Right,
+        KeyName::Tab => KName::Tab,
+        KeyName::Up => KName::Up,
+    }
 }
 
-pub fn replay(_w: &Value) -> Result<(bool, String), String> {
-    Err("C04: check not built yet".into())
+fn kmods(m: KeyMod) -> u32 {
+    let mut bits = 0;
+    for (flag, bit) in [
+        (KeyMod::SHIFT, SHIFT),
+        (KeyMod::ALT, ALT),
+        (KeyMod::CTRL, CTRL),
+        (KeyMod::SUPER, SUPER),
+        (KeyMod::HYPER, HYPER),
+        (KeyMod::META, META),
+        (KeyMod::CAPSLOCK, CAPS),
+        (KeyMod::NUMLOCK, NUM),
+        (KeyMod::PRESS, PRESS),
+    ] {
+        if m.contains(flag) {
+            bits |= bit;
+        }
+    }
+    bits
+}
+
+fn rgb_of(c: RGBA) -> (Rgb, u8) {
+    ([c.red(), c.green(), c.blue()], c.alpha())
+}
+
+/// colours inside faces are opaque in every expected value; a non-opaque one is made visible
+fn opaque(c: Option<RGBA>) -> Result<Option<Rgb>, String> {
+    match c {
+        None => Ok(None),
+        Some(c) => {
+            let (rgb, a) = rgb_of(c);
+            if a == 255 {
+                Ok(Some(rgb))
+            } else {
+                Err(format!("non-opaque colour {:?}", c))
+            }
+        }
+    }
+}
+
+fn ustyle(u: UnderlineStyle) -> UStyle {
+    match u {
+        UnderlineStyle::None => UStyle::None,
+        UnderlineStyle::Straight => UStyle::Straight,
+        UnderlineStyle::Double => UStyle::Double,
+        UnderlineStyle::Curly => UStyle::Curly,
+        UnderlineStyle::Dotted => UStyle::Dotted,
+        UnderlineStyle::Dashed => UStyle::Dashed,
+    }
+}
+
+fn observe_modify(m: &FaceModify) -> Result<MModify, String> {
+    Ok(MModify {
+        reset: m.reset,
+        fg: opaque(m.fg)?,
+        bg: opaque(m.bg)?,
+        underline: m.underline.map(ustyle),
+        underline_color: opaque(m.underline_color)?,
+        bold: m.bold,
+        italic: m.italic,
+        blink: m.blink,
+        strike: m.strike,
+    })
+}
+
+fn observe_face(f: &Face) -> Result<MFace, String> {
+    Ok(MFace {
+        fg: opaque(f.fg)?,
+        bg: opaque(f.bg)?,
+        underline: ustyle(f.attrs.underline()),
+        bold: f.attrs.contains(FaceAttrs::BOLD),
+        italic: f.attrs.contains(FaceAttrs::ITALIC),
+        blink: f.attrs.contains(FaceAttrs::BLINK),
+        reverse: f.attrs.contains(FaceAttrs::REVERSE),
+        strike: f.attrs.contains(FaceAttrs::STRIKE),
+    })
+}
+
+fn observe(e: &TerminalEvent) -> Ev {
+    let other = |why: String| Ev::Other(format!("{:?} ({})", e, why));
+    match e {
+        TerminalEvent::Key(Key { name, mode }) => Ev::Key { name: kname(*name), mods: kmods(*mode) },
+        TerminalEvent::Mouse(m) => Ev::Mouse { name: kname(m.name), mods: kmods(m.mode), row: m.pos.row, col: m.pos.col },
+        TerminalEvent::CursorPosition(p) => Ev::CursorPosition { row: p.row, col: p.col },
+        TerminalEvent::Size(s) => Ev::Size {
+            cells_h: s.cells.height,
+            cells_w: s.cells.width,
+            px_h: s.pixels.height,
+            px_w: s.pixels.width,
+        },
+        TerminalEvent::DecMode { mode, status } => Ev::DecMode {
+            // the DEC private mode number each variant stands for (xterm ctlseqs / contour sync spec)
+            mode: match mode {
+                DecMode::VisibleCursor => 25,
+                DecMode::AutoWrap => 7,
+                DecMode::SixelScrolling => 80,
+                DecMode::MouseReport => 1000,
+                DecMode::MouseMotions => 1003,
+                DecMode::MouseSGR => 1006,
+                DecMode::AltScreen => 1049,
+                DecMode::SynchronizedOutput => 2026,
+                DecMode::BracketedPaste => 2004,
+            },
+            status: match status {
+                DecModeStatus::NotRecognized => 0,
+                DecModeStatus::Enabled => 1,
+                DecModeStatus::Disabled => 2,
+                DecModeStatus::PermanentlyEnabled => 3,
+                DecModeStatus::PermanentlyDisabled => 4,
+            },
+        },
+        TerminalEvent::DeviceAttrs(set) => Ev::DeviceAttrs(set.clone()),
+        TerminalEvent::Color { name, color } => {
+            let (c, alpha) = rgb_of(*color);
+            Ev::Color {
+                name: match name {
+                    TerminalColor::Background => ColorName::Background,
+                    TerminalColor::Foreground => ColorName::Foreground,
+                    TerminalColor::Palette(i) => ColorName::Palette(*i),
+                },
+                comps: [(c[0], c[0]), (c[1], c[1]), (c[2], c[2])],
+                alpha,
+            }
+        }
+        TerminalEvent::Termcap(map) => Ev::Termcap(map.clone()),
+        TerminalEvent::KeyboardLevel(n) => Ev::KeyboardLevel(*n),
+        TerminalEvent::KittyImage { id, placement, error } => {
+            Ev::KittyImage { id: *id, placement: *placement, error: error.clone() }
+        }
+        TerminalEvent::Paste(s) => Ev::Paste(s.clone()),
+        TerminalEvent::FaceGet(face) => match observe_face(face) {
+            Ok(f) => Ev::FaceGet(f),
+            Err(why) => other(why),
+        },
+        TerminalEvent::Command(TerminalCommand::FaceModify(m)) => match observe_modify(m) {
+            Ok(m) => Ev::FaceModify(m),
+            Err(why) => other(why),
+        },
+        TerminalEvent::Raw(b) => Ev::Raw(b.clone()),
+        _ => other("no model name".into()),
+    }
+}
+
+// ---------------------------------------------------------------------------------------------
+// one evaluation
+// ---------------------------------------------------------------------------------------------
+
+struct Outcome {
+    kind: String,
+    detail: String,
+    /// index of the first intended event that was not decoded as intended (if that is the failure)
+    at: Option<usize>,
+}
+
+struct Decoded {
+    events: Vec<Ev>,
+    /// number of events delivered before the trailing ESC was fed
+    before_flush: usize,
+    buffer_after: Vec<u8>,
+    rescheduled_after: Vec<u8>,
+}
+
+/// Feed `bytes` split at `cuts` (strictly increasing positions inside 1..len), one cursor per
+/// read, then a lone ESC in its own read.
+fn decode_real(bytes: &[u8], cuts: &[usize]) -> Result<Decoded, String> {
+    let mut dec = TTYEventDecoder::new();
+    let mut out: Vec<TerminalEvent> = Vec::new();
+    let mut start = 0;
+    for end in cuts.iter().copied().chain(std::iter::once(bytes.len())) {
+        dec.decode_into(Cursor::new(&bytes[start..end]), &mut out).map_err(|e| format!("decode error {e:?}"))?;
+        start = end;
+    }
+    let before_flush = out.len();
+    dec.decode_into(Cursor::new(&b"\x1b"[..]), &mut out).map_err(|e| format!("decode error {e:?}"))?;
+    let snap = dec.verif_snapshot();
+    Ok(Decoded {
+        events: out.iter().map(observe).collect(),
+        before_flush,
+        buffer_after: snap.buffer,
+        rescheduled_after: snap.rescheduled,
+    })
+}
+
+fn show(evs: &[Ev]) -> String {
+    let s = format!("{:?}", evs);
+    if s.len() > 600 {
+        format!("{}...", &s[..600])
+    } else {
+        s
+    }
+}
+
+/// `pending`: how many of the trailing expected events may only be delivered at the flush
+fn eval(bytes: &[u8], cuts: &[usize], expect: &[Ev], pending: usize) -> Option<Outcome> {
+    let d = match catch(|| decode_real(bytes, cuts)) {
+        Err(p) => {
+            return Some(Outcome {
+                kind: p.key(),
+                detail: format!("panicked: {} ({}:{}); intended {}", p.message, p.file, p.line, show(expect)),
+                at: None,
+            })
+        }
+        Ok(Err(e)) => return Some(Outcome { kind: "decode-error".into(), detail: e, at: None }),
+        Ok(Ok(d)) => d,
+    };
+    let same = d.events.len() == expect.len() && expect.iter().zip(&d.events).all(|(e, o)| e.accepts(o));
+    if !same {
+        let kind = if d.events.iter().any(|e| matches!(e, Ev::Raw(_))) {
+            "raw"
+        } else if d.events.len() != expect.len() {
+            "count"
+        } else {
+            "wrong-event"
+        };
+        let at = (0..expect.len()).find(|i| d.events.get(*i).map_or(true, |o| !expect[*i].accepts(o)));
+        return Some(Outcome {
+            kind: kind.into(),
+            detail: format!("intended {} but decoded {}", show(expect), show(&d.events)),
+            at: Some(at.unwrap_or(expect.len().saturating_sub(1))),
+        });
+    }
+    if d.before_flush != expect.len() - pending {
+        return Some(Outcome {
+            kind: "late".into(),
+            detail: format!(
+                "{} of {} events were delivered when the last byte had been read, expected {} (the rest appeared only after further input)",
+                d.before_flush,
+                expect.len(),
+                expect.len() - pending
+            ),
+            at: None,
+        });
+    }
+    if d.buffer_after != b"\x1b" || !d.rescheduled_after.is_empty() {
+        return Some(Outcome {
+            kind: "residual".into(),
+            detail: format!(
+                "after the sequence and a trailing ESC the decoder holds buffer={:?} rescheduled={:?} (expected just the ESC)",
+                esc(&d.buffer_after),
+                esc(&d.rescheduled_after)
+            ),
+            at: None,
+        });
+    }
+    None
+}
+
+/// call `f` with every cut list of at most `max_cuts` cuts
+fn for_each_cuts(n: usize, max_cuts: usize, mut f: impl FnMut(&[usize])) {
+    f(&[]);
+    if max_cuts >= 1 {
+        for a in 1..n {
+            f(&[a]);
+        }
+    }
+    if max_cuts >= 2 {
+        for a in 1..n {
+            for b in a + 1..n {
+                f(&[a, b]);
+            }
+        }
+    }
+}
+
+// ---------------------------------------------------------------------------------------------
+// bookkeeping
+// ---------------------------------------------------------------------------------------------
+
+#[derive(Default)]
+struct Local {
+    cases: u64,
+    decodes: u64,
+    skipped: u64,
+    in_hashes: Vec<u64>,
+    ev_hashes: Vec<u64>,
+}
+
+impl Local {
+    fn compact(v: &mut Vec<u64>) {
+        v.par_sort_unstable();
+        v.dedup();
+    }
+    fn merge(mut self, mut o: Local) -> Local {
+        self.cases += o.cases;
+        self.decodes += o.decodes;
+        self.skipped += o.skipped;
+        self.in_hashes.append(&mut o.in_hashes);
+        self.ev_hashes.append(&mut o.ev_hashes);
+        if self.ev_hashes.len() > (1 << 20) {
+            Self::compact(&mut self.ev_hashes);
+        }
+        self
+    }
+}
+
+struct FamilyStat {
+    cases: u64,
+    decodes: u64,
+    skipped: u64,
+    max_cuts: usize,
+    example: Value,
+}
+
+struct State<'a> {
+    ctx: &'a Ctx,
+    viol: Violations,
+    families: Mutex<BTreeMap<&'static str, FamilyStat>>,
+    in_hashes: Mutex<Vec<u64>>,
+    ev_hashes: Mutex<Vec<u64>>,
+}
+
+/// One lattice case produced by a generator
+#[derive(Clone)]
+struct Case {
+    /// violation sub-key (keeps keys coarse: `<family>/<sub>:<kind>`)
+    sub: &'static str,
+    bytes: Vec<u8>,
+    expect: Vec<Ev>,
+    pending: usize,
+}
+
+fn one(sub: &'static str, (bytes, ev): (Vec<u8>, Ev)) -> Case {
+    Case { sub, bytes, expect: vec![ev], pending: 0 }
+}
+
+fn witness(family: &str, label: &str, bytes: &[u8], cuts: &[usize], expect: &[Ev], pending: usize) -> Value {
+    json!({
+        "family": family,
+        "label": label,
+        "bytes": hex(bytes),
+        "text": esc(bytes),
+        "cuts": cuts,
+        "expect": serde_json::to_value(expect).unwrap(),
+        "pending": pending,
+    })
+}
+
+impl<'a> State<'a> {
+    /// Evaluate every case `gen(i)`, i in 0..n (None = outside the property, counted as skipped),
+    /// under every partition with at most `max_cuts` cuts.
+    fn family<G>(&self, family: &'static str, max_cuts: usize, n: u64, gen: G)
+    where
+        G: Fn(u64) -> Option<Case> + Sync,
+    {
+        let local = (0..n)
+            .into_par_iter()
+            .fold(Local::default, |mut l, i| {
+                let Some(c) = gen(i) else {
+                    l.skipped += 1;
+                    return l;
+                };
+                l.cases += 1;
+                l.in_hashes.push(hash64(&c.bytes));
+                for e in &c.expect {
+                    l.ev_hashes.push(hash64(e));
+                }
+                if l.ev_hashes.len() > (1 << 20) {
+                    Local::compact(&mut l.ev_hashes);
+                }
+                for_each_cuts(c.bytes.len(), max_cuts, |cuts| {
+                    l.decodes += 1;
+                    if let Some(o) = eval(&c.bytes, cuts, &c.expect, c.pending) {
+                        self.viol.add(
+                            format!("{}/{}:{}", family, c.sub, o.kind),
+                            format!("[{}] {} read as {:?}: {}", family, esc(&c.bytes), cuts, o.detail),
+                            witness(family, c.sub, &c.bytes, cuts, &c.expect, c.pending),
+                        );
+                    }
+                });
+                l
+            })
+            .reduce(Local::default, Local::merge);
+        let example = (0..n)
+            .find_map(|i| gen(i))
+            .map(|c| json!({"input": esc(&c.bytes), "intended": format!("{:?}", c.expect)}))
+            .unwrap_or(Value::Null);
+        let mut fam = self.families.lock().unwrap();
+        let prev = fam.insert(
+            family,
+            FamilyStat { cases: local.cases, decodes: local.decodes, skipped: local.skipped, max_cuts, example },
+        );
+        assert!(prev.is_none(), "family {family} registered twice");
+        drop(fam);
+        let mut l = local;
+        self.in_hashes.lock().unwrap().append(&mut l.in_hashes);
+        self.ev_hashes.lock().unwrap().append(&mut l.ev_hashes);
+    }
+
+    fn family_vec(&self, family: &'static str, max_cuts: usize, cases: Vec<Case>) {
+        self.family(family, max_cuts, cases.len() as u64, |i| Some(cases[i as usize].clone()));
+    }
+}
+
+// ---------------------------------------------------------------------------------------------
+// lattices
+// ---------------------------------------------------------------------------------------------
+
+/// coordinate lattice of DESIGN.md (1-based values a terminal can report)
+const COORD: [usize; 12] = [1, 2, 9, 10, 94, 223, 224, 255, 256, 999, 1000, 65535];
+/// pixel sizes may also be reported as 0 by terminals that do not know them
+const PIXELS: [usize; 13] = [0, 1, 2, 9, 10, 94, 223, 224, 255, 256, 999, 1000, 65535];
+const COLOR5: [u8; 5] = [0, 1, 127, 128, 255];
+
+fn scalar_from_index(i: u64) -> Option<char> {
+    char::from_u32(i as u32)
+}
+
+/// the CPR forms the statement resolves in favour of the key: `CSI 1 ; n R`, n = 2..=8
+fn cpr_is_modified_f3(row1: usize, col1: usize) -> bool {
+    row1 == 1 && (2..=8).contains(&col1)
+}
+
+fn attr_ops() -> Vec<SgrOp> {
+    let mut v = vec![
+        SgrOp::Reset,
+        SgrOp::ResetEmpty,
+        SgrOp::Bold,
+        SgrOp::Italic,
+        SgrOp::ItalicOff,
+        SgrOp::Blink,
+        SgrOp::BlinkOff,
+        SgrOp::Strike,
+        SgrOp::StrikeOff,
+        SgrOp::Underline,
+        SgrOp::UnderlineOff,
+    ];
+    v.extend((0..=5).map(SgrOp::UnderlineStyle));
+    v.extend((0..16).map(SgrOp::NamedFg));
+    v.extend((0..16).map(SgrOp::NamedBg));
+    v
+}
+
+fn color_forms7() -> Vec<ColorForm> {
+    let mut v = ColorForm::RGB.to_vec();
+    v.push(ColorForm::IdxSemi);
+    v.push(ColorForm::IdxColon);
+    v
+}
+
+/// pool for "later parameters win" sequences
+fn op_pool() -> Vec<SgrOp> {
+    use SgrOp::*;
+    vec![
+        Reset,
+        ResetEmpty,
+        Bold,
+        Italic,
+        ItalicOff,
+        Blink,
+        Strike,
+        StrikeOff,
+        Underline,
+        UnderlineStyle(3),
+        UnderlineStyle(0),
+        UnderlineOff,
+        NamedFg(1),
+        NamedFg(9),
+        NamedBg(2),
+        NamedBg(10),
+        Color(Target::Fg, ColorForm::RgbSemi, [1, 2, 3]),
+        Color(Target::Bg, ColorForm::RgbSemi, [4, 5, 6]),
+        Color(Target::Ul, ColorForm::RgbSemi, [7, 8, 9]),
+        Color(Target::Fg, ColorForm::RgbColon, [255, 128, 64]),
+        Color(Target::Bg, ColorForm::RgbColonEmptyCs, [6, 5, 4]),
+        Color(Target::Fg, ColorForm::IdxSemi, [150, 0, 0]),
+        Color(Target::Bg, ColorForm::IdxColon, [232, 0, 0]),
+        Color(Target::Ul, ColorForm::IdxSemi, [5, 0, 0]),
+    ]
+}
+
+/// every SGR parameter list of the lattice (shared by the SGR and the DECRPSS family)
+fn sgr_lattice() -> Vec<(&'static str, Vec<SgrOp>)> {
+    let mut out: Vec<(&'static str, Vec<SgrOp>)> = Vec::new();
+    // single attribute / named colour parameters
+    for op in attr_ops() {
+        out.push(("single", vec![op]));
+    }
+    // indexed colours: every index, both separators, all three targets
+    for t in Target::ALL {
+        for form in [ColorForm::IdxSemi, ColorForm::IdxColon] {
+            for n in 0..=255u8 {
+                out.push((if form == ColorForm::IdxSemi { "indexed-semicolon" } else { "indexed-colon" }, vec![SgrOp::Color(t, form, [n, 0, 0])]));
+            }
+        }
+    }
+    // true colour, single: every form x 5^3 lattice
+    for t in Target::ALL {
+        for form in ColorForm::RGB {
+            for r in COLOR5 {
+                for g in COLOR5 {
+                    for b in COLOR5 {
+                        out.push((if form == ColorForm::RgbSemi { "rgb-semicolon" } else { "rgb-colon" }, vec![SgrOp::Color(t, form, [r, g, b])]));
+                    }
+                }
+            }
+        }
+    }
+    // multi colour: every ordered choice of 2 or 3 distinct targets x every form per colour
+    // x two colour assignments (the second uses component values that are themselves SGR codes)
+    // x five surrounding contexts
+    let forms = color_forms7();
+    let assignments: [[Rgb; 3]; 2] = [[[1, 2, 3], [255, 128, 64], [0, 0, 0]], [[38, 2, 5], [48, 5, 58], [1, 4, 9]]];
+    let mut orders: Vec<Vec<Target>> = Vec::new();
+    for a in Target::ALL {
+        for b in Target::ALL {
+            if a != b {
+                orders.push(vec![a, b]);
+                for c in Target::ALL {
+                    if c != a && c != b {
+                        orders.push(vec![a, b, c]);
+                    }
+                }
+            }
+        }
+    }
+    for order in &orders {
+        let k = order.len();
+        let nforms = forms.len().pow(k as u32);
+        for fi in 0..nforms {
+            let mut f = fi;
+            let mut chosen = Vec::new();
+            for _ in 0..k {
+                chosen.push(forms[f % forms.len()]);
+                f /= forms.len();
+            }
+            let all_semi = chosen.iter().all(|f| matches!(f, ColorForm::RgbSemi | ColorForm::IdxSemi));
+            for assign in &assignments {
+                let colours: Vec<SgrOp> = (0..k).map(|i| SgrOp::Color(order[i], chosen[i], assign[i])).collect();
+                for ctx in 0..5 {
+                    let mut ops = Vec::new();
+                    match ctx {
+                        1 | 3 => ops.push(SgrOp::Bold),
+                        4 => ops.push(SgrOp::Reset),
+                        _ => {}
+                    }
+                    ops.extend(colours.iter().copied());
+                    if ctx == 2 || ctx == 3 {
+                        ops.push(SgrOp::Underline);
+                    }
+                    out.push((if all_semi { "multi-colour-semicolon" } else { "multi-colour-mixed" }, ops));
+                }
+            }
+        }
+    }
+    // later parameters win: all ordered pairs and triples over the pool
+    let pool = op_pool();
+    for a in &pool {
+        for b in &pool {
+            out.push(("pair", vec![*a, *b]));
+            for c in &pool {
+                out.push(("triple", vec![*a, *b, *c]));
+            }
+        }
+    }
+    out
+}
+
+fn hex_lattice() -> Vec<HexComp> {
+    let mut v = Vec::new();
+    for (digits, values) in [
+        (1u32, vec![0x0u32, 0x1, 0x7, 0x8, 0xf]),
+        (2, vec![0x00, 0x01, 0x7f, 0x80, 0xff]),
+        (3, vec![0x000, 0x7f7, 0x808, 0xfff]),
+        (4, vec![0x0000, 0x0101, 0x1d1d, 0x7f7f, 0x8080, 0xcccc, 0xffff]),
+    ] {
+        for value in values {
+            v.push(HexComp { digits, value });
+        }
+    }
+    v
+}
+
+fn paste_alphabet() -> Vec<&'static str> {
+    vec!["a", "\u{e9}", ";", "[", "\x07", "\n", "~", "0"]
+}
+
+// ---------------------------------------------------------------------------------------------
+// sequence tokens
+// ---------------------------------------------------------------------------------------------
+
+#[derive(Clone)]
+struct Token {
+    name: String,
+    family: &'static str,
+    bytes: Vec<u8>,
+    events: Vec<Ev>,
+    prefix: bool,
+}
+
+fn tokens() -> Vec<Token> {
+    let mut out: Vec<Token> = Vec::new();
+    let keys = legacy_keys();
+    let mut key = |bytes: &[u8]| {
+        let row = keys.iter().find(|r| r.bytes == bytes).unwrap_or_else(|| panic!("token {:?} not in the key table", esc(bytes)));
+        out.push(Token {
+            name: format!("key {}", esc(bytes)),
+            family: "keys",
+            bytes: bytes.to_vec(),
+            events: vec![Ev::key(row.name, row.mods)],
+            prefix: row.prefix,
+        });
+    };
+    for k in [
+        &b"\x1b"[..],
+        b"\x1b[",
+        b"\x1bO",
+        b"\x1bP",
+        b"\x1b]",
+        b"\x1b_",
+        b"\x01",
+        b"\x00",
+        b"\x7f",
+        b"\r",
+        b"\x1ba",
+        b"\x1bM",
+        b"\x1b\\",
+        b"\x1b1",
+        b"\x1b[A",
+        b"\x1b[1;5A",
+        b"\x1bOP",
+        b"\x1b[R",
+        b"\x1b[1;2R",
+        b"\x1b[15~",
+        b"\x1b[3;6~",
+        b"\x1b[H",
+        b"\x1b[24~",
+    ] {
+        key(k);
+    }
+    let mut tok = |family: &'static str, (bytes, ev): (Vec<u8>, Ev)| {
+        out.push(Token { name: format!("{} {}", family, esc(&bytes)), family, bytes, events: vec![ev], prefix: false });
+    };
+    tok("mouse", print_mouse(0, 1, 1, true));
+    tok("mouse", print_mouse(26, 33, 26, false));
+    tok("mouse", print_mouse(65, 65535, 65535, true));
+    tok("cursor", print_cursor_report(97, 15));
+    tok("cursor", print_cursor_report(1, 1));
+    tok("size", print_text_area(101, 202, 3104, 1482));
+    tok("decrpm", print_decrpm(2004, 1));
+    tok("decrpm", print_decrpm(25, 2));
+    tok("da1", print_da1(&[62], true));
+    tok("da1", print_da1(&[64, 4], false));
+    let c = |digits, value| HexComp { digits, value };
+    tok("osc", print_osc_color(ColorName::Palette(1), &ColorSpec::Rgb([c(2, 0xcc), c(2, 0x24), c(2, 0x1d)], false), true));
+    tok("osc", print_osc_color(ColorName::Foreground, &ColorSpec::Hash([0xeb, 0xdb, 0xb2], false), false));
+    tok("osc", print_osc_color(ColorName::Background, &ColorSpec::Rgb([c(4, 0), c(4, 0x8080), c(4, 0xffff)], false), false));
+    tok("termcap", print_xtgettcap(true, &[("bel", "^G"), ("bold", "\x1b[1m")], false));
+    tok("termcap", print_xtgettcap(false, &[("surf", ""), ("term", "")], false));
+    tok("termcap", print_xtgettcap(true, &[], false));
+    tok("kitty-key", print_kitty_key(97, None, None, None).unwrap());
+    tok("kitty-key", print_kitty_key(99, None, None, Some(5)).unwrap());
+    tok("kitty-key", print_kitty_key(27, None, None, Some(7)).unwrap());
+    tok("kitty-key", print_kitty_key(57376, None, None, Some(2)).unwrap());
+    tok("kitty-key", print_kitty_key(97, Some(65), None, Some(2)).unwrap());
+    tok("kitty-level", print_kitty_level(15));
+    tok("kitty-image", print_kitty_image(127, None, None, "OK"));
+    tok("kitty-image", print_kitty_image(31, Some(11), None, "ENOENT:no such image"));
+    tok("paste", print_paste("a;["));
+    tok("paste", print_paste(""));
+    tok("decrpss", print_decrpss_sgr(&[SgrOp::Reset, SgrOp::Bold, SgrOp::Color(Target::Fg, ColorForm::RgbColonEmptyCs, [1, 2, 3])]));
+    tok("decrpss", print_decrpss_sgr(&[SgrOp::Color(Target::Bg, ColorForm::IdxSemi, [150, 0, 0])]));
+    tok("sgr", print_sgr(&[SgrOp::ResetEmpty]));
+    tok("sgr", print_sgr(&[SgrOp::Bold, SgrOp::Underline, SgrOp::NamedFg(9), SgrOp::NamedBg(10)]));
+    tok(
+        "sgr",
+        print_sgr(&[SgrOp::Color(Target::Fg, ColorForm::RgbSemi, [1, 2, 3]), SgrOp::Color(Target::Bg, ColorForm::RgbSemi, [4, 5, 6])]),
+    );
+    tok("sgr", print_sgr(&[SgrOp::UnderlineStyle(3)]));
+    tok("sgr", print_sgr(&[SgrOp::Color(Target::Fg, ColorForm::IdxColon, [150, 0, 0])]));
+    for ch in ['a', '[', 'O', '1', ';', '~', 'R', ' ', 'm', 'u', '\u{e9}', '\u{20ac}', '\u{1f431}'] {
+        tok("text", print_text(ch));
+    }
+    out
+}
+
+/// A prefix key may only be followed by a sequence that starts with ESC (otherwise the property
+/// allows the longer reading, e.g. ESC [ then A is the Up key).
+fn sequence_allowed(seq: &[&Token]) -> bool {
+    seq.windows(2).all(|w| !w[0].prefix || w[1].bytes[0] == 0x1b)
+}
+
+// ---------------------------------------------------------------------------------------------
+// run
+// ---------------------------------------------------------------------------------------------
+
+pub fn run(ctx: &Ctx) -> Result<Report, String> {
+    let st = State {
+        ctx,
+        viol: Violations::new(),
+        families: Mutex::new(BTreeMap::new()),
+        in_hashes: Mutex::new(Vec::new()),
+        ev_hashes: Mutex::new(Vec::new()),
+    };
+    let thorough = ctx.tier == Tier::Thorough;
+    let small = 2usize; // small families: every <= 2-cut partition in both tiers
+    let medium = 2usize;
+    let large = ctx.tier.pick(1usize, 2usize);
+    let sweep = ctx.tier.pick(0usize, 1usize); // the million-case sweeps
+
+    // --- legacy key table: every row -----------------------------------------------------
+    let rows = legacy_keys();
+    {
+        let mut seen = std::collections::BTreeSet::new();
+        for r in &rows {
+            if !seen.insert(r.bytes.clone()) {
+                return Err(format!("golden key table lists {:?} twice", esc(&r.bytes)));
+            }
+        }
+    }
+    st.family_vec(
+        "keys",
+        small,
+        rows.iter()
+            .map(|r| Case { sub: r.group, bytes: r.bytes.clone(), expect: vec![Ev::key(r.name, r.mods)], pending: r.prefix as usize })
+            .collect(),
+    );
+
+    // --- SGR mouse: all button codes x {M,m} x coordinates^2 --------------------------------
+    let nc = COORD.len() as u64;
+    st.family("mouse", medium, 128 * 2 * nc * nc, |i| {
+        let (code, press, x, y) = (i % 128, i / 128 % 2 == 0, COORD[(i / 256 % nc) as usize], COORD[(i / 256 / nc) as usize]);
+        Some(one(if code & 64 != 0 { "wheel" } else { "button" }, print_mouse(code as u32, x, y, press)))
+    });
+
+    // --- cursor position report: dense band 1..=64 squared plus the lattice squared ------------
+    let mut cpr: Vec<(usize, usize)> = Vec::new();
+    for r in 1..=64 {
+        for c in 1..=64 {
+            cpr.push((r, c));
+        }
+    }
+    for r in COORD {
+        for c in COORD {
+            if r > 64 || c > 64 {
+                cpr.push((r, c));
+            }
+        }
+    }
+    st.family("cursor", medium, cpr.len() as u64, |i| {
+        let (r, c) = cpr[i as usize];
+        if cpr_is_modified_f3(r, c) {
+            // resolved in favour of the key (statement): covered by `cursor-vs-f3`
+            return None;
+        }
+        Some(one("report", print_cursor_report(r, c)))
+    });
+    st.family("cursor-vs-f3", small, 7, |i| {
+        let col = i as usize + 2;
+        let (bytes, _) = print_cursor_report(1, col);
+        Some(Case { sub: "key-wins", bytes, expect: vec![Ev::key(KName::F(3), col as u32 - 1)], pending: 0 })
+    });
+
+    // --- text area size: cells x pixels --------------------------------------------------------
+    let np = PIXELS.len() as u64;
+    st.family("size", medium, nc * nc * np * np, |i| {
+        let (h, w) = (COORD[(i % nc) as usize], COORD[(i / nc % nc) as usize]);
+        let j = i / nc / nc;
+        let (ph, pw) = (PIXELS[(j % np) as usize], PIXELS[(j / np) as usize]);
+        Some(one("report", print_text_area(h, w, ph, pw)))
+    });
+
+    // --- DECRPM: 9 modes x 5 statuses -----------------------------------------------------------
+    st.family("decrpm", small, 45, |i| {
+        Some(one("report", print_decrpm(DEC_MODES[(i / 5) as usize], (i % 5) as usize)))
+    });
+
+    // --- DA1: all non-empty subsets of {1,4,6,22,62,64}, ascending/descending, with/without ';' ---
+    const DA: [usize; 6] = [1, 4, 6, 22, 62, 64];
+    st.family("da1", small, 63 * 4, |i| {
+        let mask = i / 4 + 1;
+        let mut attrs: Vec<usize> = (0..6).filter(|b| mask >> b & 1 == 1).map(|b| DA[b]).collect();
+        if i % 4 >= 2 {
+            attrs.reverse();
+        }
+        Some(one("report", print_da1(&attrs, i % 2 == 1)))
+    });
+
+    // --- OSC 4/10/11 colours ----------------------------------------------------------------------
+    // (a) every value of every width, in each component position
+    let widths: [(u32, u64); 4] = [(1, 16), (2, 256), (3, 4096), (4, 65536)];
+    let sweep_total: u64 = widths.iter().map(|w| w.1).sum::<u64>() * 3;
+    st.family("osc-rgb-sweep", sweep, sweep_total, |i| {
+        let pos = (i % 3) as usize;
+        let mut k = i / 3;
+        let mut comp = None;
+        for (digits, count) in widths {
+            if k < count {
+                comp = Some(HexComp { digits, value: k as u32 });
+                break;
+            }
+            k -= count;
+        }
+        let mut comps = [HexComp { digits: 2, value: 0x24 }, HexComp { digits: 4, value: 0x1d1d }, HexComp { digits: 1, value: 0xc }];
+        comps[pos] = comp.unwrap();
+        Some(one("rgb", print_osc_color(ColorName::Foreground, &ColorSpec::Rgb(comps, false), i % 2 == 0)))
+    });
+    // (b) lattice^3 x names x terminators x hex case
+    let hl = hex_lattice();
+    let nh = hl.len() as u64;
+    let names = [ColorName::Foreground, ColorName::Background, ColorName::Palette(0), ColorName::Palette(255)];
+    st.family("osc-rgb-lattice", large, nh * nh * nh * 4 * 2 * 2, |i| {
+        let comps = [hl[(i % nh) as usize], hl[(i / nh % nh) as usize], hl[(i / nh / nh % nh) as usize]];
+        let j = i / nh / nh / nh;
+        Some(one("rgb", print_osc_color(names[(j % 4) as usize], &ColorSpec::Rgb(comps, j / 4 % 2 == 1), j / 8 == 1)))
+    });
+    // (c) every palette index
+    st.family("osc-palette-index", medium, 256 * 4, |i| {
+        let spec = if i % 2 == 0 {
+            ColorSpec::Rgb([HexComp { digits: 4, value: 0xcccc }, HexComp { digits: 4, value: 0x2424 }, HexComp { digits: 4, value: 0x1d1d }], false)
+        } else {
+            ColorSpec::Hash([0xeb, 0xdb, 0xb2], false)
+        };
+        Some(one("palette", print_osc_color(ColorName::Palette((i / 4) as usize), &spec, i / 2 % 2 == 0)))
+    });
+    // (d) #rrggbb: every byte in every position, plus lattice^3 x names x terminators x case
+    st.family("osc-hash-sweep", sweep, 256 * 3, |i| {
+        let mut c = [0x12u8, 0xab, 0xef];
+        c[(i % 3) as usize] = (i / 3) as u8;
+        Some(one("hash", print_osc_color(ColorName::Background, &ColorSpec::Hash(c, false), i % 2 == 0)))
+    });
+    const HASH6: [u8; 6] = [0x00, 0x01, 0x7f, 0x80, 0xcc, 0xff];
+    st.family("osc-hash-lattice", medium, 216 * 4 * 2 * 2, |i| {
+        let c = [HASH6[(i % 6) as usize], HASH6[(i / 6 % 6) as usize], HASH6[(i / 36 % 6) as usize]];
+        let j = i / 216;
+        Some(one("hash", print_osc_color(names[(j % 4) as usize], &ColorSpec::Hash(c, j / 4 % 2 == 1), j / 8 == 1)))
+    });
+
+    // --- XTGETTCAP: 0..=3 distinct capabilities, valid / invalid, hex case ---------------------------
+    let caps: [(&str, &str); 4] = [("TN", "xterm-kitty"), ("Co", "256"), ("bel", "^G"), ("smcup", "\x1b[?1049h")];
+    let mut selections: Vec<Vec<(&str, &str)>> = vec![vec![]];
+    for a in 0..4 {
+        selections.push(vec![caps[a]]);
+        for b in 0..4 {
+            if b != a {
+                selections.push(vec![caps[a], caps[b]]);
+                for c in 0..4 {
+                    if c != a && c != b {
+                        selections.push(vec![caps[a], caps[b], caps[c]]);
+                    }
+                }
+            }
+        }
+    }
+    st.family("termcap", small, selections.len() as u64 * 4, |i| {
+        let sel = &selections[(i / 4) as usize];
+        let ok = i % 2 == 0;
+        Some(one(if ok { "valid" } else { "invalid" }, print_xtgettcap(ok, sel, i / 2 % 2 == 1)))
+    });
+
+    // --- kitty keyboard -----------------------------------------------------------------------------
+    // every Unicode scalar value (and every functional key the table names) x {no mods, 1, 2, 5, 8, 256}
+    const KMODS: [Option<u32>; 6] = [None, Some(1), Some(2), Some(5), Some(8), Some(256)];
+    st.family("kitty-key-all-codes", sweep, 0x110000 * 6, |i| {
+        let code = (i / 6) as u32;
+        if code == 0 {
+            return None;
+        }
+        let c = print_kitty_key(code, None, None, KMODS[(i % 6) as usize])?;
+        Some(one(if (57344..=63743).contains(&code) { "functional" } else if matches!(code, 9 | 13 | 27 | 127) { "named" } else { "char" }, c))
+    });
+    // every modifier parameter 1..=256 x representative codes
+    const KCODES: [u32; 13] = [97, 65, 32, 48, 27, 13, 9, 127, 233, 0x20ac, 0x1f431, 57376, 57398];
+    st.family("kitty-key-all-mods", medium, 256 * 13, |i| {
+        Some(one("mods", print_kitty_key(KCODES[(i % 13) as usize], None, None, Some((i / 13) as u32 + 1)).unwrap()))
+    });
+    // alternate key forms (the library asks for "report alternate keys")
+    const KALT: [(u32, Option<u32>, Option<u32>); 6] = [
+        (97, Some(65), None),
+        (97, None, Some(97)),
+        (1089, Some(1057), Some(99)),
+        (1089, None, Some(99)),
+        (59, Some(58), None),
+        (57376, None, Some(57376)),
+    ];
+    st.family("kitty-key-alternates", small, 6 * 6, |i| {
+        let (code, sh, base) = KALT[(i % 6) as usize];
+        Some(one("alternate", print_kitty_key(code, sh, base, KMODS[(i / 6) as usize]).unwrap()))
+    });
+    // CSI ? flags u: all 5-bit flag sets
+    st.family("kitty-level", small, 32, |i| Some(one("level", print_kitty_level(i as usize))));
+
+    // --- kitty image responses ----------------------------------------------------------------------
+    const IDS: [u64; 8] = [1, 2, 9, 10, 255, 256, 65535, 4294967295];
+    const PLACEMENTS: [Option<u64>; 5] = [None, Some(1), Some(11), Some(65535), Some(4294967295)];
+    const EXTRA: [Option<&str>; 2] = [None, Some("I=13")];
+    const MESSAGES: [&str; 6] =
+        ["OK", "ENOENT:no such image", "EINVAL:bad;thing", "EBADF: \u{e9}", "E", "OK but not quite"];
+    st.family("kitty-image", medium, 8 * 5 * 2 * 6, |i| {
+        Some(one(
+            "response",
+            print_kitty_image(IDS[(i % 8) as usize], PLACEMENTS[(i / 8 % 5) as usize], EXTRA[(i / 40 % 2) as usize], MESSAGES[(i / 80) as usize]),
+        ))
+    });
+
+    // --- bracketed paste: all payloads of length <= 3 over the alphabet ----------------------------------
+    let alpha = paste_alphabet();
+    let na = alpha.len() as u64;
+    st.family("paste", medium, 1 + na + na * na + na * na * na, |i| {
+        let mut text = String::new();
+        let (len, mut k) = if i == 0 {
+            (0, 0)
+        } else if i < 1 + na {
+            (1, i - 1)
+        } else if i < 1 + na + na * na {
+            (2, i - 1 - na)
+        } else {
+            (3, i - 1 - na - na * na)
+        };
+        for _ in 0..len {
+            text.push_str(alpha[(k % na) as usize]);
+            k /= na;
+        }
+        Some(one("paste", print_paste(&text)))
+    });
+
+    // --- SGR and DECRPSS SGR reports ---------------------------------------------------------------------
+    let lattice = sgr_lattice();
+    st.family("sgr", large, lattice.len() as u64, |i| {
+        let (sub, ops) = &lattice[i as usize];
+        Some(one(sub, print_sgr(ops)))
+    });
+    st.family("decrpss", large, lattice.len() as u64 * 2, |i| {
+        let (sub, ops) = &lattice[(i / 2) as usize];
+        if i % 2 == 0 {
+            Some(one(sub, print_decrpss_sgr(ops)))
+        } else {
+            // xterm starts its report with `0;`
+            let mut with0 = vec![SgrOp::Reset];
+            with0.extend(ops.iter().copied());
+            Some(one(sub, print_decrpss_sgr(&with0)))
+        }
+    });
+
+    // --- plain text: every scalar value the decoder treats as printable ------------------------------------
+    st.family("text", sweep, 0x110000, |i| {
+        let c = scalar_from_index(i)?;
+        if (c as u32) < 0x20 || c as u32 == 0x7f {
+            return None; // C0 controls and DEL are keys of the table, not text
+        }
+        Some(one(if c.is_ascii() { "ascii" } else { "multibyte" }, print_text(c)))
+    });
+    // multi-byte characters split at every byte boundary
+    const MB: [char; 8] = ['\u{80}', '\u{e9}', '\u{7ff}', '\u{800}', '\u{20ac}', '\u{ffff}', '\u{10000}', '\u{10ffff}'];
+    st.family("text-split", small, 8, |i| Some(one("multibyte", print_text(MB[i as usize]))));
+
+    // --- sequences --------------------------------------------------------------------------------------------
+    let toks = tokens();
+    let nt = toks.len();
+    let depth = if thorough { 3 } else { 2 };
+    let seq_count = std::sync::atomic::AtomicU64::new(0);
+    let seq_decodes = std::sync::atomic::AtomicU64::new(0);
+    let seq_skipped = std::sync::atomic::AtomicU64::new(0);
+    let mut capped = false;
+    for k in 2..=depth {
+        let total = (nt as u64).pow(k as u32);
+        let over = std::sync::atomic::AtomicBool::new(false);
+        (0..total).into_par_iter().for_each(|i| {
+            if over.load(std::sync::atomic::Ordering::Relaxed) {
+                return;
+            }
+            if i % 4096 == 0 && st.ctx.over_cap() {
+                over.store(true, std::sync::atomic::Ordering::Relaxed);
+                return;
+            }
+            let mut idx = i;
+            let mut seq: Vec<&Token> = Vec::with_capacity(k);
+            for _ in 0..k {
+                seq.push(&toks[(idx % nt as u64) as usize]);
+                idx /= nt as u64;
+            }
+            if !sequence_allowed(&seq) {
+                seq_skipped.fetch_add(1, std::sync::atomic::Ordering::Relaxed);
+                return;
+            }
+            let mut bytes = Vec::new();
+            let mut expect = Vec::new();
+            let mut owner: Vec<usize> = Vec::new();
+            for (ti, t) in seq.iter().enumerate() {
+                bytes.extend_from_slice(&t.bytes);
+                for e in &t.events {
+                    expect.push(e.clone());
+                    owner.push(ti);
+                }
+            }
+            let pending = if seq[k - 1].prefix { 1 } else { 0 };
+            let mut n = 0u64;
+            for_each_cuts(bytes.len(), 2, |cuts| {
+                n += 1;
+                if let Some(o) = eval(&bytes, cuts, &expect, pending) {
+                    let names: Vec<&str> = seq.iter().map(|t| t.name.as_str()).collect();
+                    // attribute to the token whose event is the first wrong one (else the last token)
+                    // (a panic cannot be attributed: one key for all sequences)
+                    let culprit = if o.kind.starts_with("panic") {
+                        "any"
+                    } else {
+                        o.at.and_then(|a| owner.get(a)).map_or(seq[k - 1].family, |ti| seq[*ti].family)
+                    };
+                    st.viol.add(
+                        format!("sequence/{}:{}", culprit, o.kind),
+                        format!("[sequence] {:?} read as {:?}: {}", names, cuts, o.detail),
+                        witness("sequence", &names.join(" | "), &bytes, cuts, &expect, pending),
+                    );
+                }
+            });
+            seq_count.fetch_add(1, std::sync::atomic::Ordering::Relaxed);
+            seq_decodes.fetch_add(n, std::sync::atomic::Ordering::Relaxed);
+        });
+        if over.load(std::sync::atomic::Ordering::Relaxed) {
+            capped = true;
+        }
+    }
+
+    // --- report -------------------------------------------------------------------------------------------------
+    let fam = st.families.into_inner().unwrap();
+    let mut evaluations = 0u64;
+    let mut lattice_cases = 0u64;
+    let mut fam_json = serde_json::Map::new();
+    for (name, s) in &fam {
+        evaluations += s.decodes;
+        lattice_cases += s.cases;
+        fam_json.insert(
+            name.to_string(),
+            json!({"cases": s.cases, "decodes": s.decodes, "outside_property": s.skipped, "max_cuts": s.max_cuts, "example": s.example}),
+        );
+    }
+    let mut inh = st.in_hashes.into_inner().unwrap();
+    Local::compact(&mut inh);
+    let mut evh = st.ev_hashes.into_inner().unwrap();
+    Local::compact(&mut evh);
+    let seqs = seq_count.load(std::sync::atomic::Ordering::Relaxed);
+    let seqd = seq_decodes.load(std::sync::atomic::Ordering::Relaxed);
+    evaluations += seqd;
+    let samples: Vec<Value> = fam
+        .iter()
+        .filter(|(n, _)| ["keys", "mouse", "osc-rgb-lattice", "kitty-key-all-mods", "decrpss", "sgr", "termcap", "paste"].contains(*n))
+        .map(|(n, s)| json!({"family": n, "case": s.example}))
+        .collect();
+
+    let mut r = Report::new("exploration");
+    r.set("evaluations", evaluations)
+        .set("distinct_nontrivial", inh.len() as u64 + seqs)
+        .set(
+            "rule",
+            "a case = one well-formed byte string produced by an independent protocol printer for an intended event list; \
+             lattice cases are counted as distinct byte strings (hash set over all families), sequence cases as distinct token \
+             tuples; every case is non-trivial in that the expected events are computed from the intended values, never from \
+             the decoder; evaluations = decodes on the real TTYEventDecoder = cases x read partitions",
+        )
+        .set("samples", samples)
+        .set("exhaustive", !capped)
+        .set("capped", capped)
+        .set("families", Value::Object(fam_json))
+        .set("lattice_cases", lattice_cases)
+        .set("distinct_lattice_inputs", inh.len() as u64)
+        .set("distinct_intended_events", evh.len() as u64)
+        .set("sequence_tokens", nt as u64)
+        .set("sequence_depth", depth as u64)
+        .set("sequences", seqs)
+        .set("sequences_outside_property", seq_skipped.load(std::sync::atomic::Ordering::Relaxed))
+        .set("sequence_decodes", seqd)
+        .set("sequence_max_cuts", 2)
+        .set("raw_violations", st.viol.raw_count());
+    r.assume("the library's legacy key table, its SGR-mouse button names and the RGB values of the 16 basic colours are specification (transcribed once into model/keytable.rs); colours 16..=255 follow the xterm formula");
+    r.assume("SGR alphabet = parameters the library claims (0, 1, 3, 23, 4, 4:0..4:5, 24, 5, 25, 9, 29, 30-37, 40-47, 90-97, 100-107, 38/48/58 in ':' and ';' forms); 21/22, 7/27, 39/49/59 are not exercised");
+    r.assume("12- and 16-bit rgb: components may be read as their most significant byte or as the nearest 8-bit value (identical for the byte-replicated values terminals send)");
+    r.assume("keys whose bytes are a proper prefix of longer sequences (ESC, ESC [, ESC O, ESC P, ESC ], ESC _) are only placed before a sequence starting with ESC or at the end, and are flushed by a trailing ESC");
+    r.assume("CSI 1;nR with n in 2..=8 is the modified F3 key, not a cursor report (statement)");
+    r.assume("kitty functional key codes without an entry in the naming table (private use area except F13..F35) and code 0 are outside the property");
+    r.violations = st.viol.into_vec();
+    Ok(r)
+}
+
+pub fn replay(w: &Value) -> Result<(bool, String), String> {
+    let bytes = unhex(w["bytes"].as_str().ok_or("bytes")?);
+    let cuts: Vec<usize> = w["cuts"].as_array().ok_or("cuts")?.iter().map(|v| v.as_u64().unwrap_or(0) as usize).collect();
+    let expect: Vec<Ev> = serde_json::from_value(w["expect"].clone()).map_err(|e| format!("expect: {e}"))?;
+    let pending = w["pending"].as_u64().unwrap_or(0) as usize;
+    if cuts.windows(2).any(|c| c[0] >= c[1]) || cuts.iter().any(|c| *c == 0 || *c >= bytes.len()) {
+        return Err("cuts must be strictly increasing positions inside the input".into());
+    }
+    let head = format!(
+        "input {} ({} bytes) read as cuts {:?} then a lone ESC\nintended: {}",
+        esc(&bytes),
+        bytes.len(),
+        cuts,
+        show(&expect)
+    );
+    Ok(match eval(&bytes, &cuts, &expect, pending) {
+        Some(o) => (true, format!("{head}\nobserved: [{}] {}", o.kind, o.detail)),
+        None => (false, format!("{head}\nobserved: the decoder returned exactly the intended events")),
+    })
 }
